@@ -978,7 +978,16 @@ def install_builtins(reg):
     @bi("sorted")
     def _sorted(itp, a, k):
         items = itp.iterate_concrete(a[0])
-        if items is not None and all(isinstance(x, (str, int, Fraction)) for x in items):
+        if items is None:
+            raise Unsupported("sorted of a symbolic-length sequence")
+        keyf = k.get("key")
+        if keyf is not None:
+            keys = [itp.call_value(keyf, [x], {}) for x in items]
+            if all(isinstance(kk, (str, int, Fraction, bool)) for kk in keys):
+                order = sorted(range(len(items)), key=lambda i: keys[i], reverse=bool(k.get("reverse", False)))  # stable, like Python
+                return [items[i] for i in order]
+            raise Unsupported("sorted with symbolic keys")
+        if all(isinstance(x, (str, int, Fraction)) for x in items):
             return sorted(items, reverse=bool(k.get("reverse", False)))
         raise Unsupported("sorted of symbolic values")
 
